@@ -1074,7 +1074,12 @@ class ConditionalRelation(RelationProtocol, SimpleRepr):
             else:
                 sliced_rel = self._relation_if_true
 
-            return ConditionalRelation(sliced_cond, sliced_rel)
+            return ConditionalRelation(
+                sliced_cond,
+                sliced_rel,
+                name=self._name,
+                return_neutral=self._return_neutral,
+            )
 
     def get_value_for_assignment(self, assignment):
 
